@@ -1,7 +1,7 @@
 (* Wire functions of the sampler models (C16, C15, C19). *)
 From Coq Require Import List Arith ZArith QArith Qabs Lia Bool.
 From PGA Require Import Wire WireMisc.
-From PGA Require Import Sampler.Shuffle Sampler.Stat Sampler.Cst.
+From PGA Require Import Sampler.Shuffle Sampler.ShuffleRetry Sampler.Stat Sampler.Cst.
 Import ListNotations.
 Local Open Scope Z_scope.
 
@@ -104,6 +104,14 @@ Definition run_sampler (fn : nat) : list Z -> list Z :=
   | 1%nat => (* _remove_pivot_segment alone *)
     finish (rp <- getBool ;; p <- getQ ;; dist <- getQ ;; segs <- getList (getPair getQ getQ) ;; ret (rp, p, dist, segs))
            (fun '(rp, p, dist, segs) => putList putSeg (remove_pivot rp p dist segs))
+  | 2%nat => (* the retry loop: number of discarded (empty) passes and length of the stream left when the kept pass starts; k = fuel *)
+    finish (rp <- getBool ;; im <- getBool ;; dist <- getQ ;; binf <- getQ ;; bsup <- getQ ;;
+            gt <- getList (getList getUnitS) ;; k <- getNat ;; st <- getList getDraw ;; ret (rp, im, dist, binf, bsup, gt, k, st))
+           (fun '(rp, im, dist, binf, bsup, gt, k, st) =>
+              match retry_skip k rp im dist binf bsup gt st with
+              | Some (d, s) => [1; Z.of_nat d; Z.of_nat (length s)]
+              | None => [0]
+              end)
   | 10%nat => (* statistical sampler: replay of a recorded stream *)
     finish (prec <- getQ ;; ncat <- getNat ;; nann <- getNat ;; st <- getList getSDraw ;; ret (prec, ncat, nann, st))
            (fun '(prec, ncat, nann, st) =>
